@@ -125,7 +125,8 @@ Proof.
 Qed.
 
 (* ---------- part 1: the sweep in unbounded arithmetic ---------- *)
-Definition counts_fee (t : tx) : bool := (t_ty t =? TGolden) || (t_ty t =? TNormal).
+Definition counts_fee (t : tx) : bool :=
+  negb (t_ty t =? TFee) && negb (t_ty t =? TATR) && negb (t_ty t =? TIssuance) && negb (t_ty t =? TSPV).
 Definition fees_new_of (l : list tx) : N := sumN (map total_fees (filter counts_fee l)).
 Definition is_ty (ty : N) (t : tx) : bool := t_ty t =? ty.
 
@@ -134,11 +135,6 @@ Fixpoint last_index (f : tx -> bool) (i : N) (l : list tx) (acc : option N) : op
   | [] => acc
   | t :: r => last_index f (i + 1) r (if f t then Some i else acc)
   end.
-
-Lemma counts_fee_not_atr : forall t, counts_fee t = true -> (t_ty t =? TATR) = false.
-Proof.
-  intros t H. unfold counts_fee in H. apply orb_prop in H. destruct H as [H|H]; apply N.eqb_eq in H; rewrite H; reflexivity.
-Qed.
 
 Lemma sweep_inf : forall l a i,
   exists w, sweep MInf a i l = Ok w
@@ -153,11 +149,9 @@ Proof.
   induction l as [|t r IH]; intros a i.
   - exists a. cbn [sweep]. unfold fees_new_of, countb. cbn. repeat split; lia.
   - cbn [sweep]. unfold sweep_step.
-    assert (Hc : ((t_ty t =? TGolden) || (t_ty t =? TNormal)) && negb (t_ty t =? TATR) = counts_fee t).
-    { destruct (counts_fee t) eqn:E.
-      - rewrite (counts_fee_not_atr t E). unfold counts_fee in E. rewrite E. reflexivity.
-      - unfold counts_fee in E. rewrite E. reflexivity. }
-    rewrite Hc.
+    change (negb (t_ty t =? TFee) && negb (t_ty t =? TATR) && negb (t_ty t =? TIssuance) && negb (t_ty t =? TSPV))
+      with (counts_fee t).
+
     set (a' := mkSweep (if t_ty t =? TFee then w_ft a + 1 else w_ft a)
                        (if t_ty t =? TFee then Some i else w_fti a)
                        (if t_ty t =? TGolden then w_gt a + 1 else w_gt a)
@@ -234,42 +228,73 @@ Proof.
   cbn [add bind]. apply IH.
 Qed.
 
+(* the saturating operations of the payout (fix 812712b) *)
+Definition fit (s : slip) : bool := s_amt s <=? U64MAX.
+Lemma smul_ge : forall a mult, a <= U64MAX -> 1 <= mult -> a <= smul a mult.
+Proof. intros a mult Ha Hm. unfold smul. apply N.min_glb; [nia|exact Ha]. Qed.
+Lemma smul_le : forall a mult, smul a mult <= U64MAX.
+Proof. intros. unfold smul. apply N.le_min_r. Qed.
+Lemma sadd_le : forall a b, sadd a b <= U64MAX.
+Proof. intros. unfold sadd. apply N.le_min_r. Qed.
+Lemma sadd_sadd : forall x a b, sadd (sadd x a) b = sadd x (a + b).
+Proof. intros x a b. unfold sadd. generalize U64MAX. intro M. lia. Qed.
+Lemma sadd_0 : forall x, x <= U64MAX -> sadd x 0 = x.
+Proof. intros x H. unfold sadd. rewrite N.add_0_r. apply N.min_l. exact H. Qed.
+Lemma sadd_exact : forall x b, sadd x b < U64MAX -> sadd x b = x + b.
+Proof. intros x b. unfold sadd. generalize U64MAX. intro M. lia. Qed.
+
 (* what happens to one unspent output [s] of a transaction [orig] of the expiring block *)
 Definition rebroadcast_of (orig : tx) (mult fee : N) (s : slip) : tx :=
-  mk_rebroadcast orig [set_amt s (s_amt s * mult)] [set_amt (set_ty s SATR) (s_amt s * mult - fee)].
-Definition is_rebroadcast (mult fee : N) (s : slip) : bool := fee <? s_amt s * mult.
+  mk_rebroadcast orig [s] [set_amt (set_ty s SATR) (smul (s_amt s) mult - fee)].
+Definition is_rebroadcast (mult fee : N) (s : slip) : bool := fee <? smul (s_amt s) mult.
 Definition item_rbs (orig : tx) (mult fee : N) (s : slip) : list tx :=
   if is_rebroadcast mult fee s then [rebroadcast_of orig mult fee s] else [].
 Definition item_fee (mult fee : N) (s : slip) : N := if is_rebroadcast mult fee s then fee else s_amt s.
 Definition item_dust (mult fee : N) (s : slip) : N := if is_rebroadcast mult fee s then 0 else s_amt s.
-Definition item_pay (mult fee : N) (s : slip) : N := if is_rebroadcast mult fee s then s_amt s * mult - s_amt s else 0.
+Definition item_pay (mult fee : N) (s : slip) : N := if is_rebroadcast mult fee s then smul (s_amt s) mult - s_amt s else 0.
 Definition item_slips (mult fee : N) (s : slip) : N := if is_rebroadcast mult fee s then 1 else 0.
 
-Lemma atr_groups_singles : forall orig mult fee l a, 1 <= mult ->
+(* in unbounded arithmetic the section only goes through when every amount fits 64 bits *)
+Lemma atr_groups_fit : forall orig mult fee l a r,
+  atr_groups MInf orig mult fee a (map GSingle l) = Ok r -> forallb fit l = true.
+Proof.
+  intros orig mult fee. induction l as [|s l IH]; intros a r H; [reflexivity|].
+  cbn [map atr_groups] in H.
+  destruct (atr_group MInf orig mult fee a (GSingle s)) as [a'| |] eqn:E; cbn [bind] in H; try discriminate.
+  cbn [forallb]. rewrite (IH _ _ H), andb_true_r.
+  unfold atr_group in E.
+  destruct (sub MInf P_PAYOUT_MUL (smul (s_amt s) mult) (s_amt s)) as [x| |] eqn:Es; cbn [bind] in E; try discriminate.
+  apply sub_inf_ok in Es. destruct Es as [Hle _]. unfold fit. apply N.leb_le.
+  pose proof (smul_le (s_amt s) mult). lia.
+Qed.
+
+Lemma atr_groups_singles : forall orig mult fee l a, 1 <= mult -> forallb fit l = true -> a_payout a <= U64MAX ->
   atr_groups MInf orig mult fee a (map GSingle l) =
   Ok (mkAtr (a_nolan a + sumN (map s_amt l))
             (a_slips a + sumN (map (item_slips mult fee) l))
-            (a_payout a + sumN (map (item_pay mult fee) l))
+            (sadd (a_payout a) (sumN (map (item_pay mult fee) l)))
             (a_fees a + sumN (map (item_fee mult fee) l))
             (a_dust a + sumN (map (item_dust mult fee) l))
             (rev (flat_map (item_rbs orig mult fee) l) ++ a_rbs a)).
 Proof.
-  intros orig mult fee. induction l as [|s r IH]; intros a Hm.
-  - cbn [map atr_groups sumN fold_right flat_map rev app]. destruct a. cbn. f_equal. f_equal; lia.
-  - cbn [map atr_groups]. unfold atr_group. cbn [mul bind].
-    assert (Hle : s_amt s <= s_amt s * mult) by nia.
+  intros orig mult fee. induction l as [|s r IH]; intros a Hm Hfit Hp.
+  - cbn [map atr_groups sumN fold_right flat_map rev app]. rewrite (sadd_0 _ Hp). destruct a. cbn. f_equal. f_equal; lia.
+  - cbn [forallb] in Hfit. apply andb_prop in Hfit. destruct Hfit as [Hs Hfit]. unfold fit in Hs. apply N.leb_le in Hs.
+    cbn [map atr_groups]. unfold atr_group.
+    pose proof (smul_ge _ _ Hs Hm) as Hle.
     rewrite (sub_inf_le _ _ _ Hle). cbn [bind add].
     cbn [flat_map map]. rewrite !sumN_cons.
     unfold item_rbs, item_fee, item_dust, item_pay, item_slips, is_rebroadcast, rebroadcast_of in *.
-    destruct (fee <? s_amt s * mult) eqn:E.
+    destruct (fee <? smul (s_amt s) mult) eqn:E.
     + apply N.ltb_lt in E.
-      assert (Hf : fee <= s_amt s * mult) by lia.
+      assert (Hf : fee <= smul (s_amt s) mult) by lia.
       rewrite (sub_inf_le _ _ _ Hf). cbn [bind].
-      rewrite IH by exact Hm. cbn [a_nolan a_slips a_payout a_fees a_dust a_rbs].
-      cbn [rev app]. rewrite <- app_assoc. cbn [app].
+      rewrite IH by (try assumption; cbn [a_payout]; apply sadd_le).
+      cbn [a_nolan a_slips a_payout a_fees a_dust a_rbs].
+      cbn [rev app]. rewrite <- app_assoc. cbn [app]. rewrite sadd_sadd.
       f_equal. f_equal; lia.
-    + cbn [bind]. rewrite IH by exact Hm. cbn [a_nolan a_slips a_payout a_fees a_dust a_rbs].
-      cbn [app]. f_equal. f_equal; lia.
+    + cbn [bind]. rewrite IH by assumption. cbn [a_nolan a_slips a_payout a_fees a_dust a_rbs].
+      cbn [app]. rewrite N.add_0_l. f_equal. f_equal; lia.
 Qed.
 
 Lemma flat_map_pair : forall (B : Type) (g : tx * slip -> list B) t l,
@@ -282,18 +307,46 @@ Definition exp_items (v : slip -> bool) (etxs : list tx) : list (tx * slip) :=
 Definition it_fee (fpb : N) (it : tx * slip) : N := tx_size (fst it) * fpb.
 Definition txs_no_bound (etxs : list tx) : bool := forallb (fun t => no_bound (t_to t)) etxs.
 
+Definition items_fit (items : list (tx * slip)) : bool := forallb (fun it => fit (snd it)) items.
+
+Lemma items_fit_app : forall a b, items_fit (a ++ b) = items_fit a && items_fit b.
+Proof. intros. unfold items_fit. apply forallb_app. Qed.
+Lemma items_fit_pair : forall t l, items_fit (map (pair t) l) = forallb fit l.
+Proof. intros t. induction l as [|s l IH]; [reflexivity|]. cbn [map items_fit forallb snd]. unfold items_fit in IH. rewrite IH. reflexivity. Qed.
+
+Lemma atr_txs_fit : forall v mult fpb etxs a r, txs_no_bound etxs = true ->
+  atr_txs MInf v mult fpb a etxs = Ok r -> items_fit (exp_items v etxs) = true.
+Proof.
+  intros v mult fpb. induction etxs as [|t l IH]; intros a r Hnb H; [reflexivity|].
+  cbn [txs_no_bound forallb] in Hnb. apply andb_prop in Hnb. destruct Hnb as [Hnb1 Hnb2]. fold (txs_no_bound l) in Hnb2.
+  cbn [atr_txs] in H.
+  destruct (atr_tx MInf v mult fpb a t) as [a'| |] eqn:E; cbn [bind] in H; try discriminate.
+  unfold exp_items. cbn [flat_map]. rewrite items_fit_app, items_fit_pair.
+  fold (exp_items v l). rewrite (IH _ _ Hnb2 H), andb_true_r.
+  unfold atr_tx in E.
+  destruct (eligible_sum_inf (group_collect v (t_to t)) 0) as [e He]. rewrite He in E. cbn [bind] in E.
+  rewrite (collect_no_bound v _ Hnb1) in E.
+  destruct (filter v (t_to t)) as [|s0 l0] eqn:Ef; [reflexivity|].
+  cbn [mul bind] in E. rewrite <- Ef in *.
+  rewrite (group_no_bound _ (no_bound_filter v _ Hnb1)) in E.
+  exact (atr_groups_fit _ _ _ _ _ _ E).
+Qed.
+
 Lemma atr_txs_no_bound : forall v mult fpb etxs a, 1 <= mult -> txs_no_bound etxs = true ->
+  items_fit (exp_items v etxs) = true -> a_payout a <= U64MAX ->
   atr_txs MInf v mult fpb a etxs =
   Ok (mkAtr (a_nolan a + sumN (map (fun it => s_amt (snd it)) (exp_items v etxs)))
             (a_slips a + sumN (map (fun it => item_slips mult (it_fee fpb it) (snd it)) (exp_items v etxs)))
-            (a_payout a + sumN (map (fun it => item_pay mult (it_fee fpb it) (snd it)) (exp_items v etxs)))
+            (sadd (a_payout a) (sumN (map (fun it => item_pay mult (it_fee fpb it) (snd it)) (exp_items v etxs))))
             (a_fees a + sumN (map (fun it => item_fee mult (it_fee fpb it) (snd it)) (exp_items v etxs)))
             (a_dust a + sumN (map (fun it => item_dust mult (it_fee fpb it) (snd it)) (exp_items v etxs)))
             (rev (flat_map (fun it => item_rbs (fst it) mult (it_fee fpb it) (snd it)) (exp_items v etxs)) ++ a_rbs a)).
 Proof.
-  intros v mult fpb. induction etxs as [|t r IH]; intros a Hm Hnb.
-  - cbn [atr_txs exp_items flat_map map sumN fold_right rev app]. destruct a; cbn. f_equal. f_equal; lia.
+  intros v mult fpb. induction etxs as [|t r IH]; intros a Hm Hnb Hfit Hp.
+  - cbn [atr_txs exp_items flat_map map sumN fold_right rev app]. rewrite (sadd_0 _ Hp). destruct a; cbn. f_equal. f_equal; lia.
   - cbn [txs_no_bound forallb] in Hnb. apply andb_prop in Hnb. destruct Hnb as [Hnb1 Hnb2]. fold (txs_no_bound r) in Hnb2.
+    unfold exp_items in Hfit. cbn [flat_map] in Hfit. rewrite items_fit_app, items_fit_pair in Hfit.
+    fold (exp_items v r) in Hfit. apply andb_prop in Hfit. destruct Hfit as [Hfit1 Hfit2].
     cbn [atr_txs]. unfold atr_tx.
     destruct (eligible_sum_inf (group_collect v (t_to t)) 0) as [e He]. rewrite He. cbn [bind].
     rewrite (collect_no_bound v _ Hnb1).
@@ -310,22 +363,26 @@ Proof.
       f_equal; try (f_equal; lia).
     + cbn [mul bind]. rewrite <- Ef in *.
       rewrite (group_no_bound _ (no_bound_filter v _ Hnb1)).
-      rewrite atr_groups_singles by exact Hm. cbn [bind].
-      rewrite IH by assumption. cbn [a_nolan a_slips a_payout a_fees a_dust a_rbs].
+      rewrite atr_groups_singles by assumption. cbn [bind].
+      rewrite IH by (try assumption; cbn [a_payout]; apply sadd_le).
+      cbn [a_nolan a_slips a_payout a_fees a_dust a_rbs].
       rewrite !Hmap, Hrb. unfold it_fee. cbn [fst snd].
-      rewrite rev_app_distr, <- app_assoc.
+      rewrite rev_app_distr, <- app_assoc. rewrite sadd_sadd.
       f_equal. f_equal; try (rewrite <- N.add_assoc; reflexivity); try reflexivity.
 Qed.
 
 (* per item: what reappears plus what is collected equals the value plus the treasury payout *)
-Lemma item_balance : forall orig mult fee s, 1 <= mult ->
+Lemma item_balance : forall orig mult fee s, 1 <= mult -> fit s = true ->
   sumN (map (fun t => sumN (map s_amt (t_to t))) (item_rbs orig mult fee s)) + item_fee mult fee s
   = s_amt s + item_pay mult fee s.
 Proof.
-  intros orig mult fee s Hm. unfold item_rbs, item_fee, item_pay, is_rebroadcast.
-  destruct (fee <? s_amt s * mult) eqn:E.
+  intros orig mult fee s Hm Hs. unfold fit in Hs. apply N.leb_le in Hs.
+  pose proof (smul_ge _ _ Hs Hm) as Hge.
+  unfold item_rbs, item_fee, item_pay, is_rebroadcast.
+  destruct (fee <? smul (s_amt s) mult) eqn:E.
   - apply N.ltb_lt in E. unfold rebroadcast_of, mk_rebroadcast, relocate.
-    cbn [t_to relocate_from map set_amt set_ty s_amt sumN fold_right]. nia.
+    cbn [t_to relocate_from map set_amt set_ty s_amt sumN fold_right].
+    generalize dependent (smul (s_amt s) mult). intros. lia.
   - cbn [map sumN fold_right]. lia.
 Qed.
 
@@ -347,30 +404,51 @@ Definition items_rbs (gp : N) (v : slip -> bool) (i : cv_in) : list tx :=
 Lemma atr_mult_ge1 : forall gp i, 1 <= atr_mult gp i.
 Proof. intros. unfold atr_mult. lia. Qed.
 
+Lemma atr_section_fit : forall cap05 gp v i fees_new r,
+  txs_no_bound (atr_etxs gp i) = true ->
+  atr_section cap05 MInf gp v i fees_new = Ok r ->
+  items_fit (atr_items gp v i) = true.
+Proof.
+  intros cap05 gp v i fees_new r Hnb H.
+  unfold atr_section in H. cbn [add bind] in H.
+  unfold atr_items, atr_etxs in *.
+  destruct (i_id i <=? gp + 1); [reflexivity|].
+  destruct (i_expiring i) as [etxs|]; [|reflexivity].
+  cbn [mul bind add] in H.
+  match type of H with (do a <- ?X; _) = _ => destruct X as [a| |] eqn:Ea end; cbn [bind] in H; try discriminate.
+  exact (atr_txs_fit _ _ _ _ _ _ Hnb Ea).
+Qed.
+
+(* total_payout_atr is accumulated with saturating_add *)
+Definition pay_asked (gp : N) (v : slip -> bool) (i : cv_in) : N := N.min (items_sum gp v i item_pay) U64MAX.
+
 Lemma atr_section_inf : forall cap05 gp v i fees_new r,
   txs_no_bound (atr_etxs gp i) = true ->
   atr_section cap05 MInf gp v i fees_new = Ok r ->
   r_cap r = false ->
-  r_nolan r = sumN (map (fun it => s_amt (snd it)) (atr_items gp v i))
+  pay_asked gp v i <= cap05 (pv i h_treasury)
+  /\ r_nolan r = sumN (map (fun it => s_amt (snd it)) (atr_items gp v i))
   /\ r_slips r = items_sum gp v i item_slips
-  /\ r_payout r = items_sum gp v i item_pay
+  /\ r_payout r = pay_asked gp v i
   /\ r_fees r = items_sum gp v i item_fee
   /\ r_dust r = items_sum gp v i item_dust
   /\ r_rbs r = items_rbs gp v i
   /\ r_hash r = items_rbs gp v i.
 Proof.
   intros cap05 gp v i fees_new r Hnb H Hcap.
+  pose proof (atr_section_fit _ _ _ _ _ _ Hnb H) as Hfit.
   unfold atr_section in H. cbn [add bind] in H.
-  unfold items_sum, items_rbs, atr_items, atr_etxs in *.
+  unfold pay_asked, items_sum, items_rbs, atr_items, atr_etxs in *.
   destruct (i_id i <=? gp + 1) eqn:Eid.
-  { inversion H; subst. cbn. repeat split; reflexivity. }
+  { inversion H; subst. cbn. repeat split; try reflexivity. lia. }
   destruct (i_expiring i) as [etxs|] eqn:Eexp.
-  2:{ inversion H; subst. cbn. repeat split; reflexivity. }
+  2:{ inversion H; subst. cbn. repeat split; try reflexivity. lia. }
   cbn [mul bind add] in H.
   fold (pv i h_treasury) (pv i h_avg_nolan) (pv i h_avg_fpb) in H.
   change (1 + (if 0 <? gp * pv i h_avg_nolan then pv i h_treasury / (gp * pv i h_avg_nolan) else 0))
     with (atr_mult gp i) in H.
-  rewrite (atr_txs_no_bound v (atr_mult gp i) (pv i h_avg_fpb) etxs atr0 (atr_mult_ge1 gp i) Hnb) in H.
+  rewrite (atr_txs_no_bound v (atr_mult gp i) (pv i h_avg_fpb) etxs atr0 (atr_mult_ge1 gp i) Hnb Hfit) in H
+    by (cbn; lia).
   cbn [bind a_nolan a_slips a_payout a_fees a_dust a_rbs atr0] in H.
   rewrite app_nil_r, rev_involutive in H.
   unfold atr_fpb in *.
@@ -380,8 +458,164 @@ Proof.
   { destruct (_ =? 0); [discriminate|]. cbn [add bind] in H.
     destruct (cap_loop _ _ _ _) as [cr| |]; cbn [bind] in H; try discriminate.
     inversion H; subst. cbn [r_cap] in Hcap. discriminate. }
+  apply N.ltb_ge in Ecap.
+  unfold sadd in *. rewrite N.add_0_l in *.
   inversion H; subst. cbn [r_nolan r_slips r_payout r_fees r_dust r_rbs r_hash].
-  repeat split; reflexivity.
+  repeat split; try reflexivity. exact Ecap.
+Qed.
+
+(* ---------- the 5 % cap branch ---------- *)
+(* the outputs that are rebroadcast, in order *)
+Definition rb_items (mult fpb : N) (items : list (tx * slip)) : list (tx * slip) :=
+  filter (fun it => is_rebroadcast mult (it_fee fpb it) (snd it)) items.
+(* a rebroadcast under the cap: value * (1 + limit / volume), no fee *)
+Definition capped_rb (orig : tx) (adj : N) (s : slip) : tx :=
+  mk_rebroadcast orig [s] [set_amt (set_ty s SATR) (s_amt s * adj)].
+
+Lemma items_rbs_map : forall mult fpb (items : list (tx * slip)),
+  flat_map (fun it => item_rbs (fst it) mult (it_fee fpb it) (snd it)) items =
+  map (fun it => rebroadcast_of (fst it) mult (it_fee fpb it) (snd it)) (rb_items mult fpb items).
+Proof.
+  intros mult fpb. induction items as [|it r IH]; [reflexivity|].
+  cbn [flat_map rb_items filter]. unfold item_rbs at 1.
+  destruct (is_rebroadcast mult (it_fee fpb it) (snd it)); cbn [app map]; fold (rb_items mult fpb r); rewrite IH; reflexivity.
+Qed.
+
+Lemma cap_loop_singles : forall mult (f : tx * slip -> N) adj (L : list (tx * slip)) pay, 1 <= adj ->
+  cap_loop MInf adj pay (map (fun it => rebroadcast_of (fst it) mult (f it) (snd it)) L) =
+  Ok (pay + sumN (map (fun it => s_amt (snd it) * adj - s_amt (snd it)) L),
+      map (fun it => capped_rb (fst it) adj (snd it)) L).
+Proof.
+  intros mult f adj. induction L as [|it r IH]; intros pay Hadj.
+  - cbn [map cap_loop]. rewrite sumN_nil, N.add_0_r. reflexivity.
+  - cbn [map cap_loop].
+    assert (Hnt : is_triple_rb (rebroadcast_of (fst it) mult (f it) (snd it)) = false) by reflexivity.
+    rewrite Hnt. cbn [mul bind add].
+    change (s_amt (nth_slip (t_from (rebroadcast_of (fst it) mult (f it) (snd it))) 0)) with (s_amt (snd it)).
+    assert (Hle : s_amt (snd it) <= pay + s_amt (snd it) * adj) by nia.
+    rewrite (sub_inf_le _ _ _ Hle). cbn [bind].
+    rewrite IH by exact Hadj. cbn [bind fst snd]. rewrite sumN_cons.
+    assert (Hs : set_out_amt (rebroadcast_of (fst it) mult (f it) (snd it)) 0 (s_amt (snd it) * adj)
+                 = capped_rb (fst it) adj (snd it)) by reflexivity.
+    rewrite Hs. f_equal. f_equal. nia.
+Qed.
+
+Lemma sum_filter_if : forall (A : Type) (p : A -> bool) (g : A -> N) (l : list A),
+  sumN (map g (filter p l)) = sumN (map (fun x => if p x then g x else 0) l).
+Proof.
+  intros A p g. induction l as [|x r IH]; [reflexivity|].
+  cbn [filter map]. destruct (p x); cbn [map]; rewrite ?sumN_cons, IH; lia.
+Qed.
+
+(* the section as a whole, both branches: what the record holds, and the balance
+     outputs of the rebroadcasts + collected fees = volume + treasury payout *)
+Definition cap_limit (cap05 : N -> N) (i : cv_in) : N := cap05 (pv i h_treasury).
+Definition cap_adj (cap05 : N -> N) (gp : N) (v : slip -> bool) (i : cv_in) : N :=
+  1 + cap_limit cap05 i / sumN (map (fun it => s_amt (snd it)) (atr_items gp v i)).
+Definition capped_rbs (cap05 : N -> N) (gp : N) (v : slip -> bool) (i : cv_in) : list tx :=
+  map (fun it => capped_rb (fst it) (cap_adj cap05 gp v i) (snd it))
+      (rb_items (atr_mult gp i) (atr_fpb i) (atr_items gp v i)).
+
+Lemma atr_section_cap : forall cap05 gp v i fees_new r,
+  txs_no_bound (atr_etxs gp i) = true ->
+  atr_section cap05 MInf gp v i fees_new = Ok r ->
+  r_cap r = true ->
+  cap_limit cap05 i < pay_asked gp v i
+  /\ r_nolan r = sumN (map (fun it => s_amt (snd it)) (atr_items gp v i))
+  /\ r_slips r = items_sum gp v i item_slips
+  /\ r_payout r = sumN (map (fun it => s_amt (snd it) * cap_adj cap05 gp v i - s_amt (snd it))
+                            (rb_items (atr_mult gp i) (atr_fpb i) (atr_items gp v i)))
+  /\ r_fees r = items_sum gp v i item_dust
+  /\ r_dust r = items_sum gp v i item_dust
+  /\ r_rbs r = capped_rbs cap05 gp v i
+  /\ r_hash r = capped_rbs cap05 gp v i.
+Proof.
+  intros cap05 gp v i fees_new r Hnb H Hcap.
+  pose proof (atr_section_fit _ _ _ _ _ _ Hnb H) as Hfit.
+  unfold atr_section in H. cbn [add bind] in H.
+  unfold pay_asked, capped_rbs, cap_adj, cap_limit, items_sum, items_rbs, atr_items, atr_etxs in *.
+  destruct (i_id i <=? gp + 1) eqn:Eid.
+  { inversion H; subst. discriminate. }
+  destruct (i_expiring i) as [etxs|] eqn:Eexp.
+  2:{ inversion H; subst. discriminate. }
+  cbn [mul bind add] in H.
+  fold (pv i h_treasury) (pv i h_avg_nolan) (pv i h_avg_fpb) in H.
+  change (1 + (if 0 <? gp * pv i h_avg_nolan then pv i h_treasury / (gp * pv i h_avg_nolan) else 0))
+    with (atr_mult gp i) in H.
+  rewrite (atr_txs_no_bound v (atr_mult gp i) (pv i h_avg_fpb) etxs atr0 (atr_mult_ge1 gp i) Hnb Hfit) in H
+    by (cbn; lia).
+  cbn [bind a_nolan a_slips a_payout a_fees a_dust a_rbs atr0] in H.
+  rewrite app_nil_r, rev_involutive in H.
+  unfold atr_fpb in *.
+  destruct (sub MInf P_FEES_CUM _ _) as [cum| |] eqn:Ecum; cbn [bind] in H; try discriminate.
+  rewrite !N.add_0_l in *.
+  match type of H with (if ?c then _ else _) = _ => destruct c eqn:Ecap end.
+  2:{ inversion H; subst. discriminate. }
+  apply N.ltb_lt in Ecap.
+  assert (Ecap' := Ecap). unfold sadd in Ecap'. rewrite N.add_0_l in Ecap'.
+  destruct (_ =? 0); [discriminate|]. cbn [add bind] in H.
+  rewrite items_rbs_map in H.
+  rewrite cap_loop_singles in H by (apply N.le_add_r). cbn [bind fst snd] in H.
+  inversion H; subst. cbn [r_nolan r_slips r_payout r_fees r_dust r_rbs r_hash].
+  rewrite N.add_0_l. repeat split; try reflexivity. exact Ecap'.
+Qed.
+
+(* the 5 % limit is far below 2^64 for every u64 treasury; with the float function left
+   abstract this is a premise: then nothing saturates in the branch without the cap *)
+Lemma pay_asked_exact : forall cap05 gp v i,
+  cap05 (pv i h_treasury) < U64MAX -> pay_asked gp v i <= cap05 (pv i h_treasury) ->
+  pay_asked gp v i = items_sum gp v i item_pay.
+Proof. intros cap05 gp v i. unfold pay_asked. generalize U64MAX. intros M H1 H2. lia. Qed.
+
+Lemma items_balance : forall mult fpb (items : list (tx * slip)), 1 <= mult -> items_fit items = true ->
+  sumN (map (fun t => sumN (map s_amt (t_to t))) (flat_map (fun it => item_rbs (fst it) mult (it_fee fpb it) (snd it)) items))
+  + sumN (map (fun it => item_fee mult (it_fee fpb it) (snd it)) items)
+  = sumN (map (fun it => s_amt (snd it)) items)
+  + sumN (map (fun it => item_pay mult (it_fee fpb it) (snd it)) items).
+Proof.
+  intros mult fpb items Hm. induction items as [|it r IH]; intro Hfit; [reflexivity|].
+  cbn [items_fit forallb] in Hfit. apply andb_prop in Hfit. destruct Hfit as [Hf1 Hf2]. specialize (IH Hf2).
+  cbn [flat_map map]. rewrite map_app, sumN_app, !sumN_cons.
+  pose proof (item_balance (fst it) mult (it_fee fpb it) (snd it) Hm Hf1) as Hb. lia.
+Qed.
+
+(* both branches balance *)
+Lemma atr_section_balance : forall cap05 gp v i fees_new r,
+  txs_no_bound (atr_etxs gp i) = true ->
+  cap05 (pv i h_treasury) < U64MAX ->
+  atr_section cap05 MInf gp v i fees_new = Ok r ->
+  sumN (map (fun t => sumN (map s_amt (t_to t))) (r_hash r)) + r_fees r
+  = sumN (map (fun it => s_amt (snd it)) (atr_items gp v i)) + r_payout r
+  /\ r_rbs r = r_hash r
+  /\ (forall t, In t (r_hash r) -> exists it, In it (atr_items gp v i) /\ t_from t = [snd it]).
+Proof.
+  intros cap05 gp v i fees_new r Hnb Hlim H.
+  pose proof (atr_section_fit _ _ _ _ _ _ Hnb H) as Hfit.
+  destruct (r_cap r) eqn:Hcap.
+  - destruct (atr_section_cap _ _ _ _ _ _ Hnb H Hcap) as [_ [_ [_ [Hp [Hf [_ [Hr Hh]]]]]]].
+    rewrite Hp, Hf, Hr, Hh. unfold capped_rbs, items_sum. split; [|split; [reflexivity|]].
+    + set (items := atr_items gp v i). set (adj := cap_adj cap05 gp v i).
+      set (mult := atr_mult gp i). set (fpb := atr_fpb i).
+      assert (Hadj : 1 <= adj) by (unfold adj, cap_adj; apply N.le_add_r).
+      rewrite map_map. unfold rb_items. rewrite !sum_filter_if.
+      clear - Hadj. induction items as [|it l IH]; [reflexivity|].
+      cbn [map]. rewrite !sumN_cons. unfold item_dust at 1.
+      destruct (is_rebroadcast mult (it_fee fpb it) (snd it)).
+      * assert (Ho : sumN (map s_amt (t_to (capped_rb (fst it) adj (snd it)))) = s_amt (snd it) * adj).
+        { unfold capped_rb, mk_rebroadcast, relocate. cbn [t_to relocate_from map set_amt set_ty s_amt].
+          rewrite sumN_cons, sumN_nil. lia. }
+        rewrite Ho. nia.
+      * lia.
+    + intros t Ht. apply in_map_iff in Ht. destruct Ht as [it [Ht Hit]]. unfold rb_items in Hit.
+      apply filter_In in Hit. exists it. split; [tauto|]. subst t. reflexivity.
+  - destruct (atr_section_inf _ _ _ _ _ _ Hnb H Hcap) as [Hle [Hn [_ [Hp [Hf [_ [Hr Hh]]]]]]].
+    rewrite (pay_asked_exact _ _ _ _ Hlim Hle) in Hp.
+    rewrite Hp, Hf, Hr, Hh. unfold items_rbs, items_sum. split; [|split; [reflexivity|]].
+    + pose proof (items_balance (atr_mult gp i) (atr_fpb i) (atr_items gp v i) (atr_mult_ge1 gp i) Hfit) as Hb.
+      exact Hb.
+    + intros t Ht. apply in_flat_map in Ht. destruct Ht as [it [Hit Ht]]. exists it. split; auto.
+      unfold item_rbs in Ht. destruct (is_rebroadcast _ _ _); [|destruct Ht].
+      destruct Ht as [Ht|[]]. subst t. reflexivity.
 Qed.
 
 (* ---------- part 4: the payout split in unbounded arithmetic ---------- *)
@@ -465,27 +699,22 @@ Qed.
 (* ---------- generate_consensus_values in unbounded arithmetic ---------- *)
 Lemma gcv_inf : forall cap15 cap05 gp v i c,
   gcv cap15 cap05 MInf gp v i = Ok c ->
-  txs_no_bound (atr_etxs gp i) = true ->
-  c_cap c = false ->
   gp <> 0
   /\ c_fees_new c = fees_new_of (i_txs i)
-  /\ c_fees_atr c = items_sum gp v i item_fee
-  /\ c_pay_atr c = items_sum gp v i item_pay
   /\ c_total_fees c = c_fees_new c + c_fees_atr c
-  /\ c_rb_hash c = items_rbs gp v i
-  /\ c_rebroadcasts c = items_rbs gp v i
-  /\ c_rb_slips c = items_sum gp v i item_slips
-  /\ c_rb_nolan c = sumN (map (fun it => s_amt (snd it)) (atr_items gp v i))
-  /\ c_dust_fees c = items_sum gp v i item_dust
   /\ c_ft_num c = countb (is_ty TFee) (i_txs i)
   /\ c_ft_index c = last_index (is_ty TFee) 0 (i_txs i) None
   /\ c_gt_index c = last_index (is_ty TGolden) 0 (i_txs i) None
   /\ c_it_num c = countb (is_ty TIssuance) (i_txs i)
+  /\ (exists r, atr_section cap05 MInf gp v i (c_fees_new c) = Ok r
+        /\ c_fees_atr c = r_fees r /\ c_pay_atr c = r_payout r /\ c_rb_hash c = r_hash r
+        /\ c_rebroadcasts c = r_rbs r /\ c_rb_slips c = r_slips r /\ c_rb_nolan c = r_nolan r
+        /\ c_dust_fees c = r_dust r /\ c_cap c = r_cap r)
   /\ exists p nonfee, payouts cap15 MInf i (c_gt_index c) nonfee = Ok p
        /\ c_pay_treasury c = p_treasury p /\ c_pay_graveyard c = p_graveyard p
        /\ c_pay_mining c = p_mining p /\ c_fee_tx c = p_fee_tx p.
 Proof.
-  intros cap15 cap05 gp v i c H Hnb Hcap. unfold gcv in H.
+  intros cap15 cap05 gp v i c H. unfold gcv in H.
   destruct (sweep_inf (i_txs i) sweep0 0) as [w [Hw [Hf [Hft [Hgt [Hit [Hfti [Hgti Hnf]]]]]]]].
   rewrite Hw in H. cbn [bind] in H.
   cbn [sweep0 w_fees w_ft w_gt w_it w_fti w_gti w_nonfee] in *. rewrite N.add_0_l in *.
@@ -494,11 +723,12 @@ Proof.
   cbn [add bind] in H.
   destruct (gp =? 0) eqn:Egp; [discriminate|]. apply N.eqb_neq in Egp.
   destruct (payouts cap15 MInf i (w_gti w) (w_nonfee w)) as [p| |] eqn:Ep; cbn [bind] in H; try discriminate.
-  inversion H; subst c; clear H. cbn [c_cap] in Hcap.
-  destruct (atr_section_inf cap05 gp v i (w_fees w) a Hnb Ea Hcap) as [An [As [Ap [Af [Ad [Ar Ah]]]]]].
+  inversion H; subst c; clear H.
   cbn [c_fees_new c_fees_atr c_pay_atr c_total_fees c_rb_hash c_rebroadcasts c_rb_slips c_rb_nolan c_dust_fees
-       c_ft_num c_ft_index c_gt_index c_it_num c_pay_treasury c_pay_graveyard c_pay_mining c_fee_tx].
+       c_ft_num c_ft_index c_gt_index c_it_num c_pay_treasury c_pay_graveyard c_pay_mining c_fee_tx c_cap].
   split; [exact Egp|].
   repeat (split; [congruence|]).
-  exists p, (w_nonfee w). repeat split; auto.
+  split.
+  - exists a. repeat split; auto.
+  - exists p, (w_nonfee w). repeat split; auto.
 Qed.
